@@ -174,6 +174,33 @@ func (ex *Exec) binop(st *State, op token.Token, x, y *Val, xt, yt types.Type, i
 	xt = ex.env.resolve(xt)
 	switch op {
 	case token.EQL, token.NEQ:
+		// a pointer into an object (field / element / local) against nil or against another such pointer
+		if xi, yi := x != nil && x.Loc != nil && x.T == nil, y != nil && y.Loc != nil && y.T == nil; xi || yi {
+			var eq *Term
+			switch {
+			case xi && yi:
+				same := x.Loc.Kind == y.Loc.Kind && x.Loc.PathS == y.Loc.PathS && x.Loc.Cell == y.Loc.Cell
+				if same && x.Loc.Kind == LHeap {
+					eq = Eq(x.Loc.Ref, y.Loc.Ref)
+				} else if same && x.Loc.Kind == LElem {
+					eq = And(Eq(x.Loc.Arr, y.Loc.Arr), Eq(x.Loc.Idx, y.Loc.Idx))
+				} else if same {
+					eq = TTrue
+				} else {
+					eq = TFalse
+				}
+			case xi && y != nil && y.T != nil:
+				eq = TFalse // an interior pointer is never nil (and never a whole-object reference)
+			case yi && x != nil && x.T != nil:
+				eq = TFalse
+			}
+			if eq != nil {
+				if op == token.NEQ {
+					eq = Not(eq)
+				}
+				return scalar(eq)
+			}
+		}
 		eq := ex.valEq(xt, x, y)
 		if op == token.NEQ {
 			eq = Not(eq)
